@@ -262,23 +262,27 @@ def behaviours_from(out):
     return behs
 
 
-def validate_trace(ctx, trace, name, module="TraceHS.tla", constants=None, timeout=900):
+def validate_trace(ctx, trace, name, module="TraceHS.tla", constants=None, timeout=900, base_constants=None, invariants=()):
     """code -> spec: TLC checks a recorded trace. Returns the REPORT dict + 'consumed'."""
     consts = {"N": "<- TrN", "Stake": "<- TrStake", "Honest": "<- TrHonest", "MaxRound": "0", "Variants": "{0}",
-              "Weaken": "{}", "CommitAlgo": '"fixed"'}
+              "Weaken": "{}", "CommitAlgo": '"fixed"'} if base_constants is None else dict(base_constants)
     if constants:
         consts.update(constants)
-    cfg = write_cfg(ctx, "Trace-%s.cfg" % name, "TSpec", consts, invariants=["Report"], extra="POSTCONDITION Accepted")
+    cfg = write_cfg(ctx, "Trace-%s.cfg" % name, "TSpec", consts, invariants=["Report"] + list(invariants), extra="POSTCONDITION Accepted")
     r = tlc(ctx, module, cfg, workers=1, timeout=timeout, env={"TRACE": trace, "_DFS": "1"}, name="trace-" + name, heap="4g")
     out = r["out"]
+    if r["violated"]:
+        sys.stdout.write(out[-3000:])
+        raise ToolError("trace validation %s: specification invariant %s failed along the recorded execution" % (name, r["violated"]))
     m = re.search(r'<<"REPORT", "(.*)">>', out)
     if not m:
         sys.stdout.write(out[-3000:])
         raise ToolError("trace validation produced no report (%s)" % name)
     rep = json.loads(m.group(1).replace('\\"', '"'))
     mc = re.search(r'<<"TRACE", "records", (\d+), "consumed", (\d+)>>', out)
-    rep["records"] = int(mc.group(1)) if mc else 0
-    rep["consumed"] = int(mc.group(2)) if mc else 0
+    if "records" not in rep:
+        rep["records"] = int(mc.group(1)) if mc else 0
+        rep["consumed"] = int(mc.group(2)) if mc else 0
     if rep["records"] != rep["consumed"]:
         sys.stdout.write(out[-3000:])
         raise ToolError("trace not fully consumed (%s): %s of %s" % (name, rep["consumed"], rep["records"]))
